@@ -53,7 +53,9 @@ var TestContract = common.FromHex("60003560001a8060ff146025573381554381600101558
 var Unit = big.NewInt(1e10)
 
 // CallTransferGas is the value-proportional gas a call of a contract carrying `v` units must at least offer.
-func CallTransferGas(v int64) uint64 { return types.CalNewAmountGas(units(v), types.EverContractLiankeFee) }
+func CallTransferGas(v int64) uint64 {
+	return types.CalNewAmountGas(units(v), types.EverContractLiankeFee)
+}
 
 // CallIntrinsicGas is the intrinsic gas of the one-byte call of the test contract.
 func CallIntrinsicGas() uint64 {
